@@ -221,6 +221,26 @@ def shard_crash(prop: str, tier: str, seed: int, name: str, signalled: bool) -> 
     return c.export()
 
 
+def shard_race(prop: str, tier: str, seed: int, name: str, P: int) -> dict[str, Any]:
+    """SignalStage handled concurrently with the RunTask result that suspends the gate (statement-level interleaving)."""
+    from checks import c07
+    from vlib.engine_i import Sched, explore, handle_one
+    from vlib.world import World
+
+    c = Campaign(prop, tier, seed, LEVEL)
+    sc = c07.pair_scenarios()[name]
+    prep = c07.prepare_pair(sc)
+    mk = c07.make_pair_world(prep, sc)
+
+    def j(w: World, s: Sched, pre: dict[int, int]) -> None:
+        before = dict(c.buckets)
+        c07.judge_pair(c, name, sc, w, s, pre, ["signal-race"])
+
+    n = explore(mk, lambda w_: [handle_one() for _ in range(sc["workers"])], j, max_preemptions=P)
+    c.extra[f"schedules:{name}"] = n
+    return c.export()
+
+
 def _dispatch(fn, a):  # noqa: ANN001
     return fn(*a)
 
@@ -234,17 +254,20 @@ def run(c: Campaign, jobs: int) -> None:
     for name in gate_specs():
         args.append((shard_crash, (c.prop, c.tier, c.seed, name, True)))
         args.append((shard_crash, (c.prop, c.tier, c.seed, name, False)))
+    for name in ("signal-vs-suspend-persistent", "signal-vs-suspend-transient"):
+        args.append((shard_race, (c.prop, c.tier, c.seed, name, 2 if quick else 4)))
     run_shards(c, _dispatch, args, jobs)
+    c.exhaustive_parts.append("SignalStage racing the suspending RunTask result (persistent and transient): all schedules with <= 2 pre-emptions (thorough 4)")
     c.exhaustive_parts.append("signal (persistent and transient) before every delivery position of the FIFO run and of a SignalStage-hold-back schedule of 4 gate specs")
     c.rule = ("case = (gate spec, schedule, signals with position / kind / payload) or (gate spec, crash point of the signalled or un-signalled run). "
               "Non-trivial = an effective signal that was handled while the gate was NOT yet suspended (before it started or while it was running). "
               "Distinct = hash of the case.")
     c.assumptions += [
         "the gate's durable status when the SignalStage handler runs is read by the harness immediately before the delivery (single worker)",
-        "the statement-level interleaving of SignalStage with the suspending RunTask result belongs to the interleaving engine and is not part of this revision",
+        "the statement-level interleaving of SignalStage with the suspending RunTask result is explored within a pre-emption bound (scenario shared with C07)",
         "one signal per gate; SQLite only",
     ]
-    for cls in ("persistent:NOT_STARTED", "persistent:RUNNING", "persistent:SUSPENDED", "transient:SUSPENDED", "transient:RUNNING", "crash", "unsignalled"):
+    for cls in ("persistent:NOT_STARTED", "persistent:RUNNING", "persistent:SUSPENDED", "transient:SUSPENDED", "transient:RUNNING", "crash", "unsignalled", "signal-race"):
         if c.classes.get(cls, 0) == 0:
             c.harness_error(f"generator starvation: class {cls} never produced")
 
